@@ -329,9 +329,11 @@ func (m *c08Mon) mon(c *ctx, w *hWorld, _ *worldSnap, sr *stepResult, hist []str
 				} else {
 					fail("metadata-entry-appeared", fmt.Sprintf("%s made an entry with metadata %s appear under %x (not a creation, not a credited transfer)", cs.Fn, metaStr(ne.TokenMetaData), entSuffix(k)))
 				}
+				st.allow(entSuffix(k), ne.TokenMetaData)
 				continue
 			case !metaEq(oe.TokenMetaData, ne.TokenMetaData):
 				fail("metadata-changed", fmt.Sprintf("%s changed the metadata of the existing entry %x: before %s, after %s", cs.Fn, entSuffix(k), metaStr(oe.TokenMetaData), metaStr(ne.TokenMetaData)))
+				st.allow(entSuffix(k), ne.TokenMetaData) // reported here; do not blame later calls for the same copy
 				continue
 			}
 		}
@@ -780,10 +782,10 @@ func init() {
 		c.perFile = 90
 		quick := !(c.thorough() || c.widen)
 		r := &c08Run{c: c, u: u, budget: &caseBudget{max: 1300}, mon: newC08Mon()}
-		nv, nRoute, routes, walkW, walkOps, walkMax := 4, 30, 16, 5, 160, 700
+		nv, nRoute, routes, walkW, walkOps, walkMax := 4, 60, 16, 5, 160, 700
 		if !quick {
 			r.budget.max = 9000
-			nv, nRoute, routes, walkW, walkOps, walkMax = 12, 400, 40, 30, 300, 7000
+			nv, nRoute, routes, walkW, walkOps, walkMax = 12, 1000, 40, 30, 300, 7000
 		}
 		for v := 0; v < nv; v++ {
 			r.famCreatePool(v)
